@@ -374,7 +374,8 @@ def check_c10(tier, seed):
                             break
                     else:
                         try:
-                            (cur * 1.0).sum().backward()
+                            # the base also reaches the loss directly, so that it holds a gradient even when a constant member cuts the chain
+                            ((cur * 1.0).sum() + (x * 1.0).sum()).backward()
                         except Exception as e:
                             b.fail("C10.bounded.infer.raises", desc, f"{type(e).__name__}: {e}")
                             continue
@@ -392,7 +393,7 @@ def check_c10(tier, seed):
                                 cur2 = steps[j][2](cur2, k)  # an ndarray stays an ndarray through NumPy-level views, becomes a tensor in a mygrad function
                                 twin.append(cur2)
                             try:
-                                (twin[-1] * 1.0).sum().backward()
+                                (twin[-1] * 1.0).sum().backward()  # the ndarray base contributes no gradient of its own
                             except Exception:
                                 twin = None
                         for n_, (t, fl) in enumerate(flags):
